@@ -56,6 +56,8 @@ type CPkt struct {
 	OverDeclared bool
 	// Wire: bytes already framed for the transport, sent as they are instead of Bytes
 	Wire []byte
+	// Alts: a channel create that lists alternate resource names after the resource name
+	Alts bool
 }
 
 func (p CPkt) String() string {
